@@ -14,6 +14,7 @@ import (
 	"golang.org/x/mod/sumdb/tlog"
 	"pgregory.net/rapid"
 
+	"verif/harness/internal/gen"
 	"verif/harness/internal/pbt"
 	"verif/harness/internal/ref/merkleref"
 	"verif/harness/internal/tlogutil"
@@ -376,9 +377,27 @@ func checkTreeText(c treeText) pbt.Result {
 }
 
 type recordText struct {
-	ID   int64
-	Text string
-	Rest string
+	ID      int64
+	Text    string
+	Rest    string
+	BigText int // >0: the text is followed by copies of a valid line up to about this many bytes
+	BigRest int // >0: the rest is followed by further well-formed records up to about this many bytes
+}
+
+const padLine = "example.com/padding v1.0.0 h1:AAAAAAAAAAAAAAAAAAAAAAAAAAAAAAAAAAAAAAAAAAA=\n"
+
+var bigSizes = []int{4095, 4096, 65535, 65536, 65537, 999000, 1000001, 3000000}
+
+// expand materialises the padded text and rest of a case.
+func (c recordText) expand() (string, string) {
+	text, rest := c.Text, c.Rest
+	if c.BigText > 0 && c.BigText <= 4<<20 {
+		text += strings.Repeat(padLine, c.BigText/len(padLine)+1)
+	}
+	if c.BigRest > 0 && c.BigRest <= 4<<20 {
+		rest += strings.Repeat("12345\n"+padLine+"\n", c.BigRest/(len(padLine)+7)+1)
+	}
+	return text, rest
 }
 
 var recordLines = []string{"replacement \ufffd char", "\ufffd", "bom \ufeff", "sep \u2028 \u2029", "nel \u0085", "del \x7f", "max \U0010ffff", "example.com/m v1.0.0 h1:abc=", "example.com/m v1.0.0/go.mod h1:def=", "a", " ", "é日本", "x\ty", "x\x00y", "\xff", "x\ry", "", "0", "-", "go.sum database tree", " ", "\x7f", "\x1f"}
@@ -404,6 +423,13 @@ func genRecordText(t *rapid.T) recordText {
 		c.Text = rapid.String().Draw(t, "arbtext")
 	}
 	c.Rest = []string{"", "7\nnext record\n\n", "\n", "\n\n", "go.sum database tree\n5\nAAAA\n", "x"}[rapid.IntRange(0, 5).Draw(t, "rest")]
+	// long records and long streams of records (size thresholds of scanners and parsers)
+	if gen.Uniform(t, 400, "bigtext") == 0 {
+		c.BigText = bigSizes[rapid.IntRange(0, len(bigSizes)-1).Draw(t, "bigtextn")]
+	}
+	if gen.Uniform(t, 400, "bigrest") == 0 {
+		c.BigRest = bigSizes[rapid.IntRange(0, len(bigSizes)-1).Draw(t, "bigrestn")]
+	}
 	return c
 }
 
@@ -428,6 +454,7 @@ func docValid(text string) (valid bool, leadingNewline bool) {
 }
 
 func checkRecordText(c recordText) pbt.Result {
+	c.Text, c.Rest = c.expand()
 	valid, leading := docValid(c.Text)
 	r := pbt.Result{NonTrivial: valid || len(c.Text) > 0, Classes: []string{fmt.Sprintf("valid=%v leadingNL=%v", valid, leading)}}
 	if c.ID < 0 {
@@ -440,19 +467,19 @@ func checkRecordText(c recordText) pbt.Result {
 			return r // unasserted shape, rejected: fine
 		}
 	} else if (err == nil) != valid {
-		r.Fail = pbt.Failf("formatrecord-accept", "FormatRecord(%d,%q) err=%v, documented validity %v", c.ID, c.Text, err, valid)
+		r.Fail = pbt.Failf("formatrecord-accept", "FormatRecord(%d, text of %d bytes %.80q) err=%v, documented validity %v", c.ID, len(c.Text), c.Text, err, valid)
 		return r
 	}
 	if err != nil {
 		return r
 	}
 	if want := fmt.Sprintf("%d\n%s\n", c.ID, c.Text); string(msg) != want {
-		r.Fail = pbt.Failf("formatrecord-form", "FormatRecord = %q, documented form %q", msg, want)
+		r.Fail = pbt.Failf("formatrecord-form", "FormatRecord = %.80q (%d bytes), documented form %.80q (%d bytes)", msg, len(msg), want, len(want))
 		return r
 	}
 	id, text, rest, err := tlog.ParseRecord(append(append([]byte(nil), msg...), c.Rest...))
 	if err != nil || id != c.ID || string(text) != c.Text || string(rest) != c.Rest {
-		r.Fail = pbt.Failf("record-roundtrip", "ParseRecord(FormatRecord(%d,%q)+%q) = (%d,%q,%q,%v)", c.ID, c.Text, c.Rest, id, text, rest, err)
+		r.Fail = pbt.Failf("record-roundtrip", "ParseRecord(FormatRecord(%d, text of %d bytes %.60q...) + rest of %d bytes) = (%d, text of %d bytes, rest of %d bytes, %v)", c.ID, len(c.Text), c.Text, len(c.Rest), id, len(text), len(rest), err)
 	}
 	return r
 }
@@ -462,6 +489,7 @@ var subs = []pbt.Sub{
 	pbt.New("coords", 40000, 150000, genCoord, checkCoord),
 	pbt.New("treetext", 30000, 100000, genTreeText, checkTreeText),
 	pbt.New("recordtext", 30000, 100000, genRecordText, checkRecordText),
+	pbt.New("hugestore", 10000, 40000, genHugeStore, checkHugeStore),
 }
 
 func TestGen(t *testing.T)    { pbt.RunAll(t, subs) }
